@@ -133,6 +133,20 @@ func (w *World) verifyUnit(u *Unit) *Exec {
 		if u.FC.Flags["noframe"] == "" && !u.FC.ModAll {
 			e.checkFrame(fr, env2, u.FC, out)
 		}
+		if u.FC.ModAll {
+			a0 := e.hget(fr.entry, "G_alloc")
+			for _, pc := range u.FC.Preserves {
+				for _, m := range e.rawModMaps(pc) {
+					cur, old := e.hget(out, m), e.hget(fr.entry, m)
+					if cur == old {
+						continue
+					}
+					q := e.sc.freshName("q.r")
+					e.sc.oblig(out.reach, fmt.Sprintf("(forall ((%s Int)) (=> %s (= (select %s %s) (select %s %s))))", q, e.existedAtEntry(q, a0), cur, q, old, q),
+						fmt.Sprintf("%s#preserves.%s", u.Name, m), "frame", "preserves: "+m+" is unchanged for every object that existed at entry", "")
+				}
+			}
+		}
 	}
 	return e
 }
